@@ -60,7 +60,11 @@ impl Scheduler {
     }
 
     pub fn reschedule(&mut self, id: ConnectionId, reason: ScheduleReason) {
-        let tracker = self.trackers.get_mut(id).unwrap();
+        // The connection might already be gone, e.g. a link's `Ready` can reach the
+        // router after the router itself has closed that connection
+        let Some(tracker) = self.trackers.get_mut(id) else {
+            return;
+        };
         if let Some(v) = tracker.try_ready(reason) {
             trace!(tracker_id = tracker.id, "reschedule {:?} -> Ready", v);
             self.readyqueue.push_back(id);
